@@ -12,7 +12,10 @@ ENTRY = dict(
          "positions of a TLS 1.2 client; 10 kinds of raw record streams; well-formed hellos whose single key share (X25519MLKEM768, "
          "X25519, P-256, P-384, P-521) has a boundary length (0,1,31,32,33,1183..1185,1215..1217 / point size +-1) with all length "
          "prefixes fixed up and key_share last, last-but-one or first in the extension list, against servers preferring only that "
-         "group, and the same lengths in the SECOND ClientHello after a server-issued HelloRetryRequest; 8 callback-bearing server "
+         "group, and the same lengths in the SECOND ClientHello after a server-issued HelloRetryRequest; second ClientHellos after a HelloRetryRequest that differ "
+         "from the first in exactly one field (every list-valued extension longer/shorter/changed/removed/added, suites, compression, "
+         "session id, random, version); crafted CBC records after a completed TLS 1.0/1.1/1.2 handshake on CBC suites (all-padding, "
+         "no room for the MAC, MAC-only, inconsistent padding, 0/1/16384/16385/18500-byte regular records); 8 callback-bearing server "
          "configurations (UnwrapSession/WrapSession, GetConfigForClient, GetCertificate, VerifyConnection, client-auth variants) x "
          "{garbage PSK identities of 1..2000 bytes, genuine resumption by HelloGolang and every PSK parrot}; 15 kinds of post-handshake client traffic after a completed TLS 1.3 handshake by a Go-style and a Chrome_133 client "
          "(KeyUpdate requested / not requested / x20 / x40 / malformed / unratcheted, NewSessionTicket, CertificateRequest, Finished, "
